@@ -315,8 +315,13 @@ def clauses_dgms(case, status, tgt, oth):
         elif not any(len(l["ys"]) >= 2 and all(near(y, binf, S) for y in l["ys"])
                      for l in tgt["lines"]):
             bad.append("infinite deaths are drawn at height %r but no horizontal line is drawn there" % binf)
-        if yhi > ylo and not (ylo < binf < yhi):
-            bad.append("infinity line y=%r not strictly inside the y limits %r" % (binf, tgt["ylim"]))
+        # "drawn inside the axes" is a statement about the LINE (its own ordinate, as matplotlib holds it); the points sit on it
+        # to single precision (they live in a float32 array), which at magnitudes where float32 resolves coarser than the
+        # axes' height may round onto an edge - a matter of "to single precision", not of where the line is
+        line_ys = [l["ys"][0] for l in tgt["lines"] if len(l["ys"]) >= 2 and all(near(y, binf, S) for y in l["ys"])]
+        yline = min(line_ys, key=lambda y: abs(y - binf)) if line_ys else binf
+        if yhi > ylo and not (ylo < yline < yhi):
+            bad.append("infinity line y=%r not strictly inside the y limits %r" % (yline, tgt["ylim"]))
     for k, (d, sc) in enumerate(zip(sel, tgt["scatters"])):
         if len(sc["pts"]) != len(d):
             bad.append("scatter %d has %d points, diagram has %d" % (k, len(sc["pts"]), len(d)))
